@@ -54,7 +54,7 @@ Proof.
 Qed.
 
 (* ------------------------------------------------------------------ *)
-(** * i64::pow *)
+(** * wrapping_pow *)
 
 Lemma pow_split_odd base e : 0 < e -> Z.odd e = true -> base ^ e = base * (base * base) ^ (e / 2).
 Proof.
@@ -88,139 +88,77 @@ Proof.
   apply Z.div_lt_upper_bound; lia.
 Qed.
 
-(** squares are not 2^63 *)
-Lemma square_bound b : b * b <= 2 ^ 63 -> b * b <= 2 ^ 63 - 1.
+Lemma div2_nonneg e : 0 <= e -> 0 <= e / 2.
+Proof. intros. apply Z.div_pos; lia. Qed.
+
+Lemma half_lt' e n : 0 <= e -> e < 2 ^ Z.of_nat (S n) -> e / 2 < 2 ^ Z.of_nat n.
 Proof.
-  intros H. assert (Z.abs b <= 3037000499 \/ 3037000500 <= Z.abs b) as [A|A] by lia.
-  - assert (b * b = Z.abs b * Z.abs b) as -> by lia. nia.
-  - assert (b * b = Z.abs b * Z.abs b) as E by lia. rewrite E in H. exfalso. nia.
+  intros He H. rewrite Nat2Z.inj_succ, Z.pow_succ_r in H by lia.
+  apply Z.div_lt_upper_bound; lia.
 Qed.
 
-(** a factor of an in-range product, the cofactor being positive, is in range *)
-Lemma factor_in_range x p : 1 <= p -> in_i64 (x * p) = true -> in_i64 x = true.
-Proof. rewrite !in_i64_iff. intros Hp H. nia. Qed.
+Lemma wpow_S f base exp acc :
+  wpow_loop (S f) base exp acc =
+  if 0 <? exp then wpow_loop f (wrap64 (base * base)) (exp / 2) (if Z.odd exp then wrap64 (acc * base) else acc)
+  else Ok acc.
+Proof. reflexivity. Qed.
 
-Lemma even_pow_pos base k : base <> 0 -> 0 <= k -> 1 <= (base * base) ^ k.
+(** square and multiply with wrapping multiplications is the exact power, wrapped *)
+Lemma wpow_loop_ok f : forall base exp acc,
+  0 <= exp < 2 ^ Z.of_nat f -> in_i64 acc = true ->
+  wpow_loop (S f) base exp acc = Ok (wrap64 (acc * base ^ exp)).
 Proof.
-  intros Hb Hk. assert (1 <= base * base) by nia.
-  pose proof (Z.pow_pos_nonneg (base * base) k ltac:(lia) Hk). lia.
+  induction f as [|f IH]; intros base exp acc He Ha.
+  - assert (exp = 0) as -> by (cbn in He; lia). cbn. rewrite Z.mul_1_r, wrap64_id by exact Ha. reflexivity.
+  - rewrite wpow_S. destruct (Z.ltb_spec 0 exp) as [Hp|Hz].
+    + destruct (Z.odd exp) eqn:Ho.
+      * rewrite IH; [| split; [apply div2_nonneg; lia | apply half_lt'; lia] | apply wrap64_range].
+        f_equal. rewrite (pow_split_odd base exp Hp Ho).
+        rewrite wrap64_mul_pow by (apply div2_nonneg; lia). f_equal. lia.
+      * rewrite IH; [| split; [apply div2_nonneg; lia | apply half_lt'; lia] | exact Ha].
+        f_equal. rewrite (pow_split_even base exp Hp Ho). apply wrap64_mul_pow_r.
+    + assert (exp = 0) as -> by lia. rewrite Z.pow_0_r, Z.mul_1_r, wrap64_id by exact Ha. reflexivity.
 Qed.
 
-Lemma square_in_range acc base k :
-  0 <= k -> (base <> 0 -> acc <> 0) -> in_i64 (acc * (base * base) ^ (k + 1)) = true ->
-  in_i64 (base * base) = true.
+Theorem wrapping_pow_ok base exp :
+  0 <= exp < 2 ^ 64 -> wrapping_pow base exp = Ok (wrap64 (base ^ exp)).
 Proof.
-  intros Hk Hacc H. destruct (Z.eq_dec base 0) as [->|Hb]; [reflexivity|].
-  specialize (Hacc Hb). rewrite Z.pow_add_r, Z.pow_1_r in H by lia.
-  pose proof (even_pow_pos base k Hb Hk) as Hp.
-  set (p := (base * base) ^ k) in *. set (s := base * base) in *.
-  assert (0 < s) by (subst s; nia).
-  rewrite in_i64_iff in *. split; [lia|]. apply square_bound. fold s.
-  assert (1 <= Z.abs (acc * p)) by (rewrite Z.abs_mul; nia).
-  assert (Z.abs (acc * (p * s)) = Z.abs (acc * p) * s) by (rewrite Z.mul_assoc, Z.abs_mul; lia).
-  assert (Z.abs (acc * (p * s)) <= 2 ^ 63) by lia. nia.
-Qed.
-
-Lemma pow_loop_ok checks fuel : forall e base acc,
-  0 < e -> e < 2 ^ Z.of_nat fuel ->
-  (checks = true -> in_i64 base = true /\ in_i64 acc = true /\
-                    in_i64 (acc * base ^ e) = true /\ (base <> 0 -> acc <> 0)) ->
-  pow_loop checks fuel e base acc = Ok (wrap64 (acc * base ^ e)).
-Proof.
-  induction fuel as [|f IH]; intros e base acc He Hlt Hc; [cbn in Hlt; lia|].
-  cbn [pow_loop]. pose proof (half_lt e f He Hlt) as Hhalf.
-  destruct (Z.odd e) eqn:Ho.
-  - (* acc = acc * base *)
-    assert (Hm1 : mul_chk checks acc base = Ok (wrap64 (acc * base))).
-    { unfold mul_chk. destruct checks; [|reflexivity]. destruct (Hc eq_refl) as (_ & _ & HR & Hnz).
-      rewrite (pow_split_odd base e He Ho) in HR.
-      destruct (Z.eq_dec base 0) as [->|Hb]; [rewrite Z.mul_0_r; reflexivity|].
-      assert (0 <= e / 2) by (apply Z.div_pos; lia).
-      rewrite Z.mul_assoc in HR. rewrite (factor_in_range _ _ (even_pow_pos base (e / 2) Hb H) HR). reflexivity. }
-    rewrite Hm1. cbn [bind]. destruct (Z.eqb_spec e 1) as [->|H1].
-    + rewrite Z.pow_1_r. reflexivity.
-    + pose proof (half_pos_odd e He Ho H1) as Hk.
-      assert (Hm2 : mul_chk checks base base = Ok (wrap64 (base * base))).
-      { unfold mul_chk. destruct checks; [|reflexivity]. destruct (Hc eq_refl) as (_ & _ & HR & Hnz).
-        rewrite (pow_split_odd base e He Ho) in HR.
-        destruct (Z.eq_dec base 0) as [->|Hb]; [reflexivity|].
-        replace (e / 2) with ((e / 2 - 1) + 1) in HR by lia. rewrite Z.mul_assoc in HR.
-        rewrite (square_in_range (acc * base) base (e / 2 - 1)); [reflexivity|lia| |exact HR].
-        intros _. specialize (Hnz Hb). nia. }
-      rewrite Hm2. cbn [bind]. rewrite IH; [| exact Hk | exact Hhalf |].
-      * f_equal. rewrite (pow_split_odd base e He Ho). rewrite wrap64_mul_pow by lia. f_equal. lia.
-      * intros ->. destruct (Hc eq_refl) as (Hb & Ha & HR & Hnz).
-        unfold mul_chk in Hm1, Hm2. cbn [andb] in *.
-        destruct (in_i64 (acc * base)) eqn:R1; [|discriminate].
-        destruct (in_i64 (base * base)) eqn:R2; [|discriminate].
-        rewrite !wrap64_id by assumption. repeat split; try assumption.
-        -- rewrite (pow_split_odd base e He Ho) in HR. rewrite <- Z.mul_assoc. exact HR.
-        -- intros Hbb. assert (base <> 0) as Hb0 by nia. specialize (Hnz Hb0). nia.
-  - (* base = base * base only *)
-    pose proof (half_pos_even e He Ho) as Hk.
-    assert (Hm2 : mul_chk checks base base = Ok (wrap64 (base * base))).
-    { unfold mul_chk. destruct checks; [|reflexivity]. destruct (Hc eq_refl) as (_ & _ & HR & Hnz).
-      rewrite (pow_split_even base e He Ho) in HR.
-      replace (e / 2) with ((e / 2 - 1) + 1) in HR by lia.
-      rewrite (square_in_range acc base (e / 2 - 1)); [reflexivity|lia|exact Hnz|exact HR]. }
-    rewrite Hm2. cbn [bind]. rewrite IH; [| exact Hk | exact Hhalf |].
-    + f_equal. rewrite (pow_split_even base e He Ho). apply wrap64_mul_pow_r.
-    + intros ->. destruct (Hc eq_refl) as (Hb & Ha & HR & Hnz).
-      unfold mul_chk in Hm2. cbn [andb] in *.
-      destruct (in_i64 (base * base)) eqn:R2; [|discriminate].
-      rewrite !wrap64_id by assumption. repeat split; try assumption.
-      * rewrite (pow_split_even base e He Ho) in HR. exact HR.
-      * intros Hbb. apply Hnz. nia.
-Qed.
-
-(** the power of an i64 by an exponent in u32 range: exact when it fits (both
-    profiles), wrapped when overflow checks are off *)
-Theorem pow_i64_ok checks a b :
-  in_i64 a = true -> 0 <= b < 2 ^ 32 -> (checks = true -> in_i64 (a ^ b) = true) ->
-  pow_i64 checks a b = Ok (wrap64 (a ^ b)).
-Proof.
-  intros Ha Hb Hc. unfold pow_i64. destruct (Z.eqb_spec b 0) as [->|H0]; [reflexivity|].
-  rewrite pow_loop_ok; [f_equal; f_equal; lia | lia | |].
-  - change (Z.of_nat 33) with 33. assert (2 ^ 32 < 2 ^ 33) by (apply Z.pow_lt_mono_r; lia). lia.
-  - intros C. specialize (Hc C). rewrite Z.mul_1_l. repeat split; try assumption; try reflexivity. lia.
-Qed.
-
-Lemma pow_in_range_ok a b : 0 <= b -> pow_in_range a b = true -> in_i64 (a ^ b) = true.
-Proof.
-  intros Hb. unfold pow_in_range. destruct (Z.leb_spec (Z.abs a) 1) as [H1|H1].
-  - intros _. rewrite in_i64_iff.
-    assert (Z.abs (a ^ b) <= 1).
-    { rewrite Z.abs_pow. assert (Z.abs a = 0 \/ Z.abs a = 1) as [->| ->] by lia.
-      - destruct (Z.eq_dec b 0) as [->|]; [cbn; lia|]. rewrite Z.pow_0_l by lia. lia.
-      - rewrite Z.pow_1_l by lia. lia. }
-    lia.
-  - destruct (64 <=? b); [discriminate|]. auto.
+  intros He. unfold wrapping_pow. change 65%nat with (S 64).
+  rewrite wpow_loop_ok; [f_equal; f_equal; lia | exact He | reflexivity].
 Qed.
 
 (* ------------------------------------------------------------------ *)
 (** * The reference evaluator *)
 
 (** 64-bit two's-complement arithmetic as the property states it: results
-    wrap, division truncates toward zero; dividing by zero gives the saturated
-    value the implementation documents by its code (the property allows any
-    value here); powers are exact powers, wrapped. *)
-Fixpoint ref_eval (t : tree str) : Z :=
+    wrap, division truncates toward zero, powers are exact powers wrapped;
+    an unreadable (out-of-range) literal and a negative exponent give a
+    diagnostic, the leftmost one in evaluation order; dividing by zero gives
+    the saturated value the implementation documents by its code (the property
+    allows any value or a diagnostic here). *)
+Fixpoint ref_eval (t : tree str) : ires :=
   match t with
-  | Leaf s => match parse_i64 s with Some z => z | None => 0 end
+  | Leaf s => match parse_i64 s with Some z => IVal z | None => IDiag DRange end
   | Node o a b =>
-    let x := ref_eval a in
-    let y := ref_eval b in
-    match o with
-    | Add => wrap64 (x + y)
-    | Sub => wrap64 (x - y)
-    | Mul => wrap64 (x * y)
-    | Div => if y =? 0 then (if 0 <? x then i64_max else if x <? 0 then i64_min else 0)
-             else wrap64 (Z.quot x y)
-    | Pow => wrap64 (x ^ y)
+    match ref_eval a with
+    | IDiag d => IDiag d
+    | IVal x =>
+      match ref_eval b with
+      | IDiag d => IDiag d
+      | IVal y =>
+        match o with
+        | Add => IVal (wrap64 (x + y))
+        | Sub => IVal (wrap64 (x - y))
+        | Mul => IVal (wrap64 (x * y))
+        | Div => if y =? 0 then IVal (if 0 <? x then i64_max else if x <? 0 then i64_min else 0)
+                 else IVal (wrap64 (Z.quot x y))
+        | Pow => if y <? 0 then IDiag DNegExp else IVal (wrap64 (x ^ y))
+        end
+      end
     end
   end.
 
-Definition eval_tree (checks : bool) (t : tree str) : res Z := fold int_prim (int_infix checks) t.
+Definition eval_tree (t : tree str) : res ires := fold int_prim int_infix t.
 
 Lemma parse_i64_range s z : parse_i64 s = Some z -> in_i64 z = true.
 Proof.
@@ -233,146 +171,57 @@ Proof.
   destruct (in_i64 (if neg then - z0 else z0)) eqn:R; [|discriminate]. intros H. injection H as <-. exact R.
 Qed.
 
-Lemma ref_eval_range t : in_i64 (ref_eval t) = true.
+Lemma ref_eval_range t z : ref_eval t = IVal z -> in_i64 z = true.
 Proof.
   destruct t as [s|o a b]; cbn [ref_eval].
-  - destruct (parse_i64 s) eqn:E; [exact (parse_i64_range _ _ E)|reflexivity].
-  - destruct o; try apply wrap64_range.
-    destruct (ref_eval b =? 0); [|apply wrap64_range].
-    destruct (0 <? ref_eval a); [reflexivity|]. destruct (ref_eval a <? 0); reflexivity.
+  - destruct (parse_i64 s) eqn:E; [|discriminate]. intros H. injection H as <-. exact (parse_i64_range _ _ E).
+  - destruct (ref_eval a) as [x|]; [|discriminate]. destruct (ref_eval b) as [y|]; [|discriminate].
+    destruct o; try (intros H; injection H as <-; apply wrap64_range).
+    + destruct (y =? 0); intros H; injection H as <-; [|apply wrap64_range].
+      destruct (0 <? x); [reflexivity|]. destruct (x <? 0); reflexivity.
+    + destruct (y <? 0); [discriminate|]. intros H; injection H as <-; apply wrap64_range.
 Qed.
 
-Lemma classes_pow_nil checks a b :
-  classes checks (Node Pow a b) = [] ->
-  classes checks a = [] /\ classes checks b = [] /\ 0 <= tv b < 2 ^ 32 /\
-  (checks = true -> pow_in_range (tv a) (tv b) = true).
+(** integer evaluation of a tree IS the reference, for every tree *)
+Theorem eval_tree_ref t : eval_tree t = Ok (ref_eval t).
 Proof.
-  cbn [classes]. intros H. apply app_eq_nil in H as [Ha H]. apply app_eq_nil in H as [Hb H].
-  destruct (Z.ltb_spec (tv b) 0); [discriminate|].
-  destruct (Z.leb_spec (2 ^ 32) (tv b)); [discriminate|].
-  repeat split; try assumption; try lia.
-  intros ->. cbn [andb] in H. destruct (pow_in_range (tv a) (tv b)); [reflexivity|discriminate].
+  unfold eval_tree. induction t as [s|o a IHa b IHb]; [reflexivity|].
+  cbn [fold ref_eval]. rewrite IHa, IHb. cbn [bind]. unfold int_infix.
+  destruct (ref_eval a) as [x|d]; [|reflexivity].
+  destruct (ref_eval b) as [y|d] eqn:Eb; [|reflexivity].
+  destruct o; try reflexivity.
+  - destruct (y =? 0); reflexivity.
+  - destruct (Z.ltb_spec y 0); [reflexivity|].
+    pose proof (ref_eval_range b y Eb) as R. apply in_i64_iff in R.
+    rewrite wrapping_pow_ok; [reflexivity|]. split; [lia|].
+    assert (2 ^ 63 < 2 ^ 64) by (apply Z.pow_lt_mono_r; lia). lia.
 Qed.
 
-Lemma classes_other_nil checks o a b :
-  o <> Pow -> classes checks (Node o a b) = [] -> classes checks a = [] /\ classes checks b = [].
+Theorem eval_int_ref fuel ps t :
+  pratt_tree fuel ps = Ok t -> eval_int fuel ps = Ok (ref_eval t).
 Proof.
-  cbn [classes]. intros Ho H. apply app_eq_nil in H as [Ha H]. apply app_eq_nil in H as [Hb H]. auto.
+  intros Ht. unfold eval_int. unfold pratt_tree in Ht.
+  rewrite (pratt_fold _ _ _ _ int_prim int_infix fuel ps t Ht).
+  exact (eval_tree_ref t).
 Qed.
 
-Lemma classes_false_of checks t : classes checks t = [] -> classes false t = [].
+(** the closures never fail: the only panic sites left are the structural ones *)
+Lemma int_prim_total s : exists v, int_prim s = Ok v.
+Proof. unfold int_prim. eauto. Qed.
+
+Lemma int_infix_total x o y :
+  (forall z, y = IVal z -> in_i64 z = true) -> exists v, int_infix x o y = Ok v.
 Proof.
-  induction t as [s|o a IHa b IHb]; [auto|]. cbn [classes]. intros H.
-  apply app_eq_nil in H as [Ha H]. apply app_eq_nil in H as [Hb H].
-  rewrite (IHa Ha), (IHb Hb). cbn [app]. destruct o; try reflexivity.
-  destruct (tv b <? 0); [discriminate|]. destruct (2 ^ 32 <=? tv b); [discriminate|]. reflexivity.
-Qed.
-
-(** the total release-arithmetic value used by the classes is the reference value *)
-Lemma tv_ref t : classes false t = [] -> tv t = ref_eval t.
-Proof.
-  induction t as [s|o a IHa b IHb]; [reflexivity|]. intros H. cbn [tv ref_eval].
-  destruct o;
-    try (apply classes_other_nil in H as [Ha Hb]; [|discriminate];
-         rewrite (IHa Ha), (IHb Hb); cbn [int_infix]; try reflexivity).
-  - destruct (ref_eval b =? 0); reflexivity.
-  - apply classes_pow_nil in H as (Ha & Hb & Hr & _).
-    rewrite (IHa Ha), (IHb Hb) in *. cbn [int_infix].
-    rewrite Z.mod_small by lia.
-    rewrite pow_i64_ok; [reflexivity | apply ref_eval_range | exact Hr | discriminate].
-Qed.
-
-Theorem eval_tree_ref checks t : classes checks t = [] -> eval_tree checks t = Ok (ref_eval t).
-Proof.
-  unfold eval_tree. induction t as [s|o a IHa b IHb]; intros H.
-  - cbn in *. unfold int_prim. destruct (parse_i64 s); [reflexivity|discriminate].
-  - cbn [fold ref_eval].
-    destruct o;
-      try (apply classes_other_nil in H as [Ha Hb]; [|discriminate];
-           rewrite (IHa Ha), (IHb Hb); cbn [bind int_infix]; try reflexivity).
-    + destruct (ref_eval b =? 0); reflexivity.
-    + apply classes_pow_nil in H as (Ha & Hb & Hr & Hc).
-      rewrite (IHa Ha), (IHb Hb). cbn [bind int_infix].
-      rewrite (tv_ref a (classes_false_of _ _ Ha)), (tv_ref b (classes_false_of _ _ Hb)) in *.
-      rewrite Z.mod_small by lia.
-      apply pow_i64_ok; [apply ref_eval_range | exact Hr |].
-      intros C. apply pow_in_range_ok; [lia | exact (Hc C)].
-Qed.
-
-(** release profile: nothing but an unreadable literal can stop the evaluation *)
-Fixpoint lits_ok (t : tree str) : bool :=
-  match t with
-  | Leaf s => match parse_i64 s with Some _ => true | None => false end
-  | Node _ a b => lits_ok a && lits_ok b
-  end.
-
-Lemma pow_loop_release fuel : forall e base acc,
-  0 < e -> e < 2 ^ Z.of_nat fuel -> exists v, pow_loop false fuel e base acc = Ok v.
-Proof. intros. rewrite pow_loop_ok by (auto; discriminate). eauto. Qed.
-
-Lemma int_infix_release x o y : exists v, int_infix false x o y = Ok v.
-Proof.
-  destruct o; cbn [int_infix]; eauto.
+  intros Hy. unfold int_infix. destruct x as [x|d]; [|eauto]. destruct y as [y|d]; [|eauto].
+  destruct o; eauto.
   - destruct (y =? 0); eauto.
-  - unfold pow_i64. destruct (y mod 2 ^ 32 =? 0) eqn:E; [eauto|].
-    apply Z.eqb_neq in E. pose proof (Z.mod_pos_bound y (2 ^ 32) ltac:(lia)).
-    apply pow_loop_release; [lia|].
-    change (Z.of_nat 33) with 33. assert (2 ^ 32 < 2 ^ 33) by (apply Z.pow_lt_mono_r; lia). lia.
+  - destruct (Z.ltb_spec y 0); [eauto|].
+    specialize (Hy y eq_refl). apply in_i64_iff in Hy.
+    rewrite wrapping_pow_ok; [cbn; eauto|]. split; [lia|].
+    assert (2 ^ 63 < 2 ^ 64) by (apply Z.pow_lt_mono_r; lia). lia.
 Qed.
 
-Theorem eval_tree_release t : lits_ok t = true -> exists v, eval_tree false t = Ok v.
-Proof.
-  unfold eval_tree. induction t as [s|o a IHa b IHb]; cbn [lits_ok fold]; intros H.
-  - unfold int_prim. destruct (parse_i64 s); [eauto|discriminate].
-  - apply andb_true_iff in H as [Ha Hb]. destruct (IHa Ha) as [x ->]. destruct (IHb Hb) as [y ->].
-    cbn [bind]. apply int_infix_release.
-Qed.
-
-(* ------------------------------------------------------------------ *)
-(** * Lines *)
-
-(** the lines on which integer evaluation is known to crash or to leave the
-    reference arithmetic: some class of the tree is non-empty. (The last
-    disjunct -- the Pratt model not building a tree from what the PEG model
-    produced -- has no known inhabitant; it is excluded rather than assumed away.) *)
-Definition Known_C19 (checks : bool) (line : str) : bool :=
-  match parse_calc line with
-  | POk ps =>
-    if has_dot line then false
-    else match pratt_tree (2 * tot ps + 1) ps with
-         | Ok t => negb (is_empty (classes checks t))
-         | _ => true
-         end
-  | _ => false
-  end.
-
-(** the tree of a line that parses *)
-Definition line_tree (line : str) : option (tree str) :=
-  match parse_calc line with
-  | POk ps => match pratt_tree (2 * tot ps + 1) ps with Ok t => Some t | _ => None end
-  | _ => None
-  end.
-
-Theorem eval_int_ref checks fuel ps t :
-  pratt_tree fuel ps = Ok t -> classes checks t = [] -> eval_int checks fuel ps = Ok (ref_eval t).
-Proof.
-  intros Ht Hc. unfold eval_int. unfold pratt_tree in Ht.
-  rewrite (pratt_fold _ _ _ _ int_prim (int_infix checks) fuel ps t Ht).
-  exact (eval_tree_ref checks t Hc).
-Qed.
-
-Theorem run_calculator_partial checks line r :
-  run_calculator checks line = RInt r -> Known_C19 checks line = false ->
-  exists t, line_tree line = Some t /\ r = Ok (ref_eval t).
-Proof.
-  unfold run_calculator, Known_C19, line_tree. destruct (parse_calc line) as [ps| |]; try discriminate.
-  destruct (has_dot line); [discriminate|]. intros H. injection H as <-.
-  destruct (pratt_tree (2 * tot ps + 1) ps) as [t| |] eqn:Et; try discriminate.
-  intros Hk. exists t. split; [reflexivity|]. apply eval_int_ref; [exact Et|].
-  destruct (classes checks t); [reflexivity|discriminate].
-Qed.
-
-(** the low 32 bits of 2^32 are zero: the implementation computes 2^0 *)
+(** the low 32 bits of 2^32 are zero: the old code computed 2^0 *)
 Lemma trunc_witness : wrap64 (2 ^ 4294967296) = 0.
 Proof.
   rewrite (wrap64_eqm _ 0); [reflexivity|].
